@@ -124,7 +124,8 @@ def parse(data: bytes, deep: bool = True) -> List[Node]:
 
 def count_frames(data: bytes):
     """independent framing by the outer identifier and length only: (number of complete outer
-    units, offset where the incomplete tail starts); stops at a unit that is not a SEQUENCE"""
+    units, offset where the incomplete tail starts); stops at a COMPLETE unit that is not a SEQUENCE, or at a header that
+    can never be completed (indefinite length)"""
     n = 0
     pos = 0
     while pos < len(data):
@@ -134,10 +135,10 @@ def count_frames(data: bytes):
             break
         except ValueError:
             return n, pos, "bad"
-        if (cls, cons, num) != (0, True, 16):
-            return n, pos, "bad"
         if pos + hl + ln > len(data):
-            break
+            break                      # genuinely incomplete (whatever its tag): holding it back is permitted
+        if (cls, cons, num) != (0, True, 16):
+            return n, pos, "bad"       # a complete unit that cannot be an LDAPMessage must be accounted for by an error
         n += 1
         pos += hl + ln
     return n, pos, "ok"
